@@ -42,6 +42,9 @@ Unsound(onodes, nodes, touched) ==
   {i \in DOMAIN nodes : /\ nodes[i].st = "VALID" /\ nodes[i].oid # 0
                         /\ \E t \in touched : IsAnc(onodes, nodes[i].oid, t)}
 
+RECURSIVE Sorted(_)
+Sorted(S) == IF S = {} THEN <<>> ELSE LET m == CHOOSE i \in S : \A j \in S : i <= j IN <<m>> \o Sorted(S \ {m})
+
 \* ---- ValidEmitted
 \* outermost VALID nodes (no VALID proper ancestor) whose text is made of whole original lines, in pre-order
 RECURSIVE HasValidAnc(_, _)
@@ -54,15 +57,17 @@ Outer(nodes, i, acc) == IF i > Len(nodes) THEN acc
 RECURSIVE Find(_, _, _)
 Find(out, block, p) == IF p + Len(block) - 1 > Len(out) THEN 0
                        ELSE IF SubSeq(out, p, p + Len(block) - 1) = block THEN p ELSE Find(out, block, p + 1)
-\* match the blocks of the nodes idx[k..] from position p of the output; result: 0 (all found) or the first node not found
-RECURSIVE Match(_, _, _, _, _, _)
-Match(orig, nodes, out, idx, k, p) ==
-  IF k > Len(idx) THEN 0
+\* match the blocks of the nodes idx[k..] from position p of the output; result: the nodes whose block is not found
+\* (a block that is not found is skipped, so that one regenerated node does not hide the others)
+RECURSIVE Match(_, _, _, _, _, _, _)
+Match(orig, nodes, out, idx, k, p, miss) ==
+  IF k > Len(idx) THEN miss
   ELSE LET n == nodes[idx[k]] IN
-       IF n.l1 > Len(orig) \/ n.l0 > n.l1 THEN idx[k]
-       ELSE Pick({IF q = 0 THEN idx[k] ELSE Match(orig, nodes, out, idx, k + 1, q + (n.l1 - n.l0 + 1)) :
+       IF n.l1 > Len(orig) \/ n.l0 > n.l1 THEN Match(orig, nodes, out, idx, k + 1, p, Append(miss, idx[k]))
+       ELSE Pick({IF q = 0 THEN Match(orig, nodes, out, idx, k + 1, p, Append(miss, idx[k]))
+                  ELSE Match(orig, nodes, out, idx, k + 1, q + (n.l1 - n.l0 + 1), miss) :
                      q \in {Find(out, SubSeq(orig, n.l0, n.l1), p)}})
-NotEmitted(orig, nodes, out) == Match(orig, nodes, out, Outer(nodes, 1, <<>>), 1, 1)
+NotEmitted(orig, nodes, out) == Match(orig, nodes, out, Outer(nodes, 1, <<>>), 1, 1, <<>>)
 
 \* ---- Unmodified: first line at which the output of a unit differs from its original lines (0: equal)
 RECURSIVE DiffFrom(_, _, _, _)
@@ -77,6 +82,6 @@ Findings(c) ==
    THEN (IF c.l1 > Len(c.orig) \/ c.l1 < c.l0 THEN <<<<"unmodified", 0>>>>       \* the recorded span is not inside the file
          ELSE Pick({IF d = 0 THEN <<>> ELSE <<<<"unmodified", d>>>> : d \in {FirstDiff(SubSeq(c.orig, c.l0, c.l1), c.out)}}))
    ELSE <<>>)
-  \o Pick({IF u = {} THEN <<>> ELSE <<<<"valid-sound", CHOOSE i \in u : \A j \in u : i <= j>>>> : u \in {Unsound(c.onodes, c.nodes, tset)}})
-  \o Pick({IF m = 0 THEN <<>> ELSE <<<<"valid-emitted", m>>>> : m \in {NotEmitted(c.orig, c.nodes, c.out)}})
+  \o Pick({[k \in DOMAIN us |-> <<"valid-sound", us[k]>>] : us \in {Sorted(Unsound(c.onodes, c.nodes, tset))}})
+  \o Pick({[k \in DOMAIN m |-> <<"valid-emitted", m[k]>>] : m \in {NotEmitted(c.orig, c.nodes, c.out)}})
 =============================================================================
